@@ -27,6 +27,9 @@ package main
 //	t<n>     truncate the file at the path to n bytes, in place (copytruncate rotation; no-op if there is none or it is
 //	         not longer than n); the bytes appended last are no longer waited for
 //	m        rename the file at the path away (`mv f f.1`: logrotate's default rotation); no-op if there is none
+//	o<hex>   atomic replace: a new file with this content is renamed ONTO the path (no-op if there is no file there);
+//	         delivery is not awaited.  Op `followspec` is `follow` with the model answering what the property asks for
+//	         (a replace counts as removal + re-creation) – the known finding of known_findings/C15.json
 //	q<hex>   append without expecting delivery (the steps `w`, `d` and the end of the history do not wait for these bytes)
 //
 // Answer: ok <delivered hex> eof=<0|1> drainerr=<0|1>.  All waits are bounded; a wait that expires
@@ -210,6 +213,15 @@ func c15Follow(f []string) string {
 		case 'q':
 			appendBytes(UnHex(arg))
 			last = nil
+		case 'o':
+			if exists() {
+				tmp := path + ".tmp"
+				if os.WriteFile(tmp, UnHex(arg), 0o644) == nil {
+					os.Rename(tmp, path)
+					c15Counters["history.replace_by_rename"]++
+				}
+			}
+			last = nil
 		case 'm':
 			if exists() {
 				c15Renames++
@@ -339,7 +351,7 @@ func c15RunCase(f []string) string {
 	if f[0] == "api" {
 		return c15Api(f)
 	}
-	if f[0] != "follow" || len(f) < 5 {
+	if (f[0] != "follow" && f[0] != "followspec") || len(f) < 5 {
 		return "bad-op"
 	}
 	return c15Follow(f)
